@@ -242,6 +242,7 @@ pub struct EngC {
     pub n_leaves: usize,
     pub bv_texts: HashSet<String>,
     pub probes: Vec<Option<Range>>, // exact range of every universe version
+    pub probes3: Vec<St>,            // three-alternative operands
     pub seen2: Vec<Mutex<HashSet<u64>>>,
 }
 
@@ -255,12 +256,36 @@ fn fnv64(s: &str) -> u64 {
 }
 
 pub fn leaf_texts(tier: &str) -> Vec<String> {
+    if tier == "bits" {
+        // bit-boundary family: a component of 2^k + 1 for every k (packing / truncation slips show
+        // at some power of two) next to small neighbours; one-sided leaves only
+        let mut out: Vec<String> = vec![];
+        for t in ["<=1.1.0", "<1.1.0", "<=2.0.0", "<2.0.0", ">=1.0.0", "<=1.0.5", ">=1.0.0-a", "<2.0.0-b"] {
+            out.push(t.to_string());
+        }
+        for k in 1..=49u32 {
+            let p = (1u64 << k) + 1;
+            if p > MAX_SAFE {
+                break;
+            }
+            for t in [format!(">=1.0.{}", p), format!(">1.0.{}", p), format!(">=1.{}.0", p), format!("<=1.{}.0", p), format!(">={}.0.0-a", p), format!("<={}.0.5", p)] {
+                out.push(t);
+            }
+        }
+        return out;
+    }
     let (bv, tv): (Vec<&str>, Vec<&str>) = match tier {
         "thorough" => (
             vec!["1.0.0", "1.0.1", "2.0.0", "1.0.0-a", "1.0.0-a.0", "2.0.0-0", "1.0.0-0.a"],
             vec!["1.0.0", "2.0.0", "1.0.0-a"],
         ),
         "tiny" => (vec!["1.0.0", "2.0.0"], vec!["1.0.0"]),
+        // components above 2^32 / 2^33 next to small ones, and prerelease tags whose numeric and
+        // textual orders disagree (9 < 10 < 1a by SemVer; "10" < "1a" < "9" as text)
+        "exotic" => (
+            vec!["1.0.4294967297", "1.1.0", "1.8589934593.0", "2.0.0", "1.0.0-9", "1.0.0-10", "1.0.0-1a"],
+            vec!["1.1.0"],
+        ),
         _ => (vec!["1.0.0", "2.0.0", "1.0.0-a", "2.0.0-0.a"], vec!["1.0.0", "2.0.0"]),
     };
     let mut out: Vec<String> = vec![];
@@ -312,6 +337,31 @@ pub fn leaf_texts(tier: &str) -> Vec<String> {
     out
 }
 
+/// three-alternative operands in every order (used as operands against every leaf, both sides;
+/// not closed under further operations)
+pub fn probe3_texts(tier: &str) -> Vec<String> {
+    if tier == "exotic" || tier == "tiny" || tier == "bits" {
+        return vec![];
+    }
+    let mut base: Vec<String> = vec![];
+    for v in ["1.0.0", "2.0.0", "3.0.0"] {
+        for op in ["", "<", ">="] {
+            base.push(format!("{}{}", op, v));
+        }
+    }
+    let mut out = vec![];
+    for a in 0..base.len() {
+        for b in 0..base.len() {
+            for c in 0..base.len() {
+                if a != b && b != c && a != c {
+                    out.push(format!("{} || {} || {}", base[a], base[b], base[c]));
+                }
+            }
+        }
+    }
+    out
+}
+
 impl EngC {
     pub fn expr_json(&self, i: usize) -> Value {
         match &self.states[i].origin {
@@ -354,8 +404,9 @@ impl EngC {
                 _ => {} // leaves that do not parse are C01's business; counted by caller
             }
         }
+        let p3: Vec<(String, Range)> = probe3_texts(tier).into_iter().filter_map(|t| guarded(|| Range::parse(&t)).ok().and_then(|r| r.ok()).map(|r| (t, r))).collect();
         let mut bvs: Vec<Version> = vec![];
-        for (_, r) in &parsed {
+        for (_, r) in parsed.iter().chain(p3.iter()) {
             for (l, h) in r.verif_bounds() {
                 for b in [l, h] {
                     match b {
@@ -379,6 +430,7 @@ impl EngC {
             n_leaves: 0,
             bv_texts,
             probes: vec![],
+            probes3: vec![],
             seen2: (0..256).map(|_| Mutex::new(HashSet::new())).collect(),
         };
         for (t, r) in parsed {
@@ -390,6 +442,11 @@ impl EngC {
             e.add_state(st);
         }
         e.n_leaves = e.states.len();
+        for (t, r) in p3 {
+            if let Ok(st) = EngC::make_state(&e.u, r, Origin::Leaf(t), 0) {
+                e.probes3.push(st);
+            }
+        }
         // probes: exact range of every universe version (only if it parses to [v,v])
         e.probes = e
             .u
@@ -1122,6 +1179,42 @@ pub fn explore(prop: &str, tier: &str, sink: &Sink, depth2: bool, triples: bool,
             .map(|&i| {
                 let mut c = Counters::default();
                 ctx.check_state(&e.states[i], &|| e.expr_json(i), &mut c);
+                c
+            })
+            .collect();
+        for c in cs {
+            c1 = c1.merge(c);
+        }
+    }
+    // ---- three-alternative operands against every leaf, both orders (results checked as states)
+    if !e.probes3.is_empty() {
+        let ctx = PairCtx { e: &e, sink, mask, full: true, register: false };
+        let cs: Vec<Counters> = (0..n0)
+            .into_par_iter()
+            .map(|i| {
+                let mut c = Counters::default();
+                for p in &e.probes3 {
+                    let pe = || match &p.origin { Origin::Leaf(t) => json!({"parse": t}), _ => json!(null) };
+                    for flip in [false, true] {
+                        let prod = if !flip {
+                            ctx.check_pair(&e.states[i], p, false, false, &|| e.expr_json(i), &pe, &mut c)
+                        } else {
+                            ctx.check_pair(p, &e.states[i], false, false, &pe, &|| e.expr_json(i), &mut c)
+                        };
+                        for (is_int, res) in [(true, prod.0), (false, prod.1)] {
+                            let Some(res) = res else { continue };
+                            if e.is_new2(&res.key) {
+                                let mk = || {
+                                    let (x, y) = if !flip { (e.expr_json(i), pe()) } else { (pe(), e.expr_json(i)) };
+                                    if is_int { json!({"intersect": [x, y]}) } else { json!({"difference": [x, y]}) }
+                                };
+                                if let Ok(st) = EngC::make_state(&e.u, res.r.unwrap(), Origin::Int(0, 0), 1) {
+                                    ctx.check_state(&st, &mk, &mut c);
+                                }
+                            }
+                        }
+                    }
+                }
                 c
             })
             .collect();
